@@ -198,6 +198,18 @@ func c09ExtAgree(c *Ctx) {
 		sort.Strings(rl)
 		c.Check(len(missing) == 0, rule, fname(r), "extension "+oid+": every template field written is assigned when reading", fmt.Sprintf("written from %v, read into %v", wl, rl),
 			fmt.Sprintf("template field(s) %v go into the extension but parseCertificate never assigns them while reading it (it assigns %v): the created certificate parses back to different field values", missing, rl), wPos[oid])
+		// the converse: a field the reader fills from this extension is one the writer consulted (otherwise the value
+		// the caller put into the template cannot influence what is parsed back: MaxPathLenZero ignored by the writer
+		// turns "path length 0" into "no limit")
+		var unread []string
+		for f := range rf {
+			if !wFields[oid][f] && extReaderOnly[oid+"|"+f] == "" {
+				unread = append(unread, f)
+			}
+		}
+		sort.Strings(unread)
+		c.Check(len(unread) == 0, rule, fname(w), "extension "+oid+": every field assigned when reading was consulted when writing", "",
+			fmt.Sprintf("parseCertificate fills %v from this extension but buildExtensions never reads them from the template (it reads %v): whatever the caller sets there is lost, so the issued certificate parses back to different values", unread, wl), wPos[oid])
 	}
 	c09SANTags(c)
 }
@@ -533,4 +545,9 @@ func c09SignedBytes(c *Ctx) {
 	if n < 4 {
 		c.Undecided(rule, "x509", "creators", fmt.Sprintf("only %d of 4 creators analysed", n), token.NoPos)
 	}
+}
+
+// extReaderOnly: fields the parser derives from an extension without a template counterpart the writer must read
+var extReaderOnly = map[string]string{
+	"2.5.29.19|BasicConstraintsValid": "presence flag: the writer reads it in the guard that decides whether the extension is written at all, the reader sets it because the extension is present",
 }
